@@ -906,3 +906,237 @@ pub fn gen_case(rng: &mut Rng, prof: &Profile, cfg: BuildCfg) -> Case {
 pub fn gen_rearrange(rng: &mut Rng, leaves: Vec<ClauseTree>) -> ClauseTree {
     fix_wide(arrange(rng, leaves, true, 0))
 }
+
+// ------------------------------------------------------------------------------------------------
+// C09: exhaustive enumeration of lifecycle event sequences up to a length
+
+fn lifecycle_clauses() -> ClauseTree {
+    // a1 must be matched exactly once, b0 (required method behind the provided b1) at least once:
+    // the verdict depends on the history, so met and unmet expectations both occur
+    ClauseTree::Tuple(vec![
+        ClauseTree::Single(PatternSpec {
+            uid: 0,
+            method: MethodId::A1,
+            kind: PatKind::SomeCall,
+            mask: 0b111,
+            matcher: MatcherKind::Mask,
+            segs: vec![Seg {
+                resp: Resp::Ret,
+                quant: Quant::N(1),
+            }],
+        }),
+        ClauseTree::Single(PatternSpec {
+            uid: 1,
+            method: MethodId::B0,
+            kind: PatKind::EachCall,
+            mask: 0b111,
+            matcher: MatcherKind::Mask,
+            segs: vec![Seg {
+                resp: Resp::Ret,
+                quant: Quant::None,
+            }],
+        }),
+    ])
+}
+
+fn lifecycle_choices(spec: &Spec, cfg: BuildCfg, max_clones: usize) -> Vec<Op> {
+    let mut out = vec![];
+    let alive: Vec<Inst> = (0..=spec.clones_alive.len())
+        .filter(|i| spec.inst_alive(*i))
+        .collect();
+    for &i in &alive {
+        if spec.clones_alive.len() < max_clones {
+            out.push(Op::Clone { from: i });
+        }
+        out.push(Op::Call {
+            inst: i,
+            method: MethodId::A1,
+            args: vec![0],
+            on_thread: false,
+            inject: None,
+        });
+        // a provided method: creates the internal delegation helper (a clone) of that instance
+        out.push(Op::Call {
+            inst: i,
+            method: MethodId::B1,
+            args: vec![1],
+            on_thread: false,
+            inject: None,
+        });
+        out.push(Op::MakeRef(i));
+        if cfg.has_lock {
+            out.push(Op::MakeRefClone(i));
+        }
+        if i > 0 {
+            out.push(Op::DropClone(i));
+            out.push(Op::VerifyClone(i));
+            out.push(Op::NoVerifyInDropClone(i));
+        }
+    }
+    if spec.original_alive {
+        out.push(Op::Verify);
+        out.push(Op::DropOriginal);
+        out.push(Op::NoVerifyInDrop);
+        if cfg.std {
+            out.push(Op::Report);
+            out.push(Op::DropOriginalOnThread);
+        }
+    }
+    out
+}
+
+/// Calls `f` with every lifecycle sequence of length 1..=max_len (shard `shard` of `n_shards`, split on the
+/// first two operations). Returns the number of sequences produced.
+pub fn enum_lifecycle(
+    max_len: usize,
+    shard: usize,
+    n_shards: usize,
+    cfg: BuildCfg,
+    f: &mut dyn FnMut(Case),
+) -> u64 {
+    let clauses = lifecycle_clauses();
+    let spec0 = Spec::build(false, &clauses, cfg, Variant::True).expect("lifecycle clauses build");
+    let mut count = 0u64;
+    fn rec(
+        spec: &Spec,
+        hist: &mut Vec<Op>,
+        max_len: usize,
+        cfg: BuildCfg,
+        clauses: &ClauseTree,
+        shard: usize,
+        n_shards: usize,
+        prefix_code: usize,
+        count: &mut u64,
+        f: &mut dyn FnMut(Case),
+    ) {
+        if !hist.is_empty() && (hist.len() >= 2 || max_len == 1 || true) {
+            // every prefix is itself a sequence; shard on the code of the first two choices
+            if prefix_code % n_shards == shard || hist.len() < 2 && shard == 0 {
+                if hist.len() >= 2 || shard == 0 {
+                    *count += 1;
+                    f(Case {
+                        partial: false,
+                        clauses: clauses.clone(),
+                        history: hist.clone(),
+                    });
+                }
+            }
+        }
+        if hist.len() == max_len {
+            return;
+        }
+        let choices = lifecycle_choices(spec, cfg, 2);
+        for (ci, op) in choices.into_iter().enumerate() {
+            let code = if hist.len() < 2 {
+                prefix_code * 31 + ci + 1
+            } else {
+                prefix_code
+            };
+            // prune subtrees of other shards as soon as the code is fixed
+            if hist.len() == 1 && code % n_shards != shard {
+                continue;
+            }
+            let mut s2 = spec.clone();
+            match &op {
+                Op::Call {
+                    inst, method, args, ..
+                } => {
+                    let mut inj = None;
+                    let mut ev = vec![];
+                    let _ = s2.call(*method, args, *inst == 0, &mut inj, &mut ev);
+                }
+                other => {
+                    if s2.life(other).is_none() {
+                        continue;
+                    }
+                }
+            }
+            hist.push(op);
+            rec(&s2, hist, max_len, cfg, clauses, shard, n_shards, code, count, f);
+            hist.pop();
+        }
+    }
+    let mut hist = vec![];
+    rec(
+        &spec0, &mut hist, max_len, cfg, &clauses, shard, n_shards, 0, &mut count, f,
+    );
+    count
+}
+
+// ------------------------------------------------------------------------------------------------
+// C04: every accepted prefix of the expected ordered sequence extended by every possible next call
+
+pub fn c04_prefix_cases(rng: &mut Rng, cfg: BuildCfg, cap: usize, f: &mut dyn FnMut(Case)) -> u64 {
+    let mut prof = Profile::for_property("C04");
+    prof.pct_build_error = 0;
+    prof.pct_nofunc = 0;
+    prof.pct_ordered = 85;
+    prof.n_methods = (2, 3);
+    let partial = rng.chance(1, 4);
+    let clauses = gen_clauses(rng, &prof, cfg);
+    let Ok(spec) = Spec::build(partial, &clauses, cfg, Variant::True) else {
+        return 0;
+    };
+    // the expected sequence: for each slot the owning pattern's method and one accepted argument tuple
+    let total_slots: usize = spec.pats.iter().filter(|p| p.ordered).map(|p| p.slot.1).max().unwrap_or(0);
+    let mut seq: Vec<(MethodId, Vec<u8>)> = vec![];
+    for slot in 0..total_slots.min(10) {
+        let Some(p) = spec.pats.iter().find(|p| p.ordered && p.slot.0 <= slot && slot < p.slot.1) else {
+            break;
+        };
+        let codes: Vec<usize> = (0..p.method.domain_size()).filter(|c| p.mask & (1 << c) != 0).collect();
+        if codes.is_empty() {
+            break;
+        }
+        seq.push((p.method, p.method.args_from_code(*rng.pick(&codes))));
+    }
+    let mut methods: Vec<MethodId> = spec.methods.keys().copied().collect();
+    // plus one method no clause mentions
+    if let Some(m) = prof.method_pool.iter().find(|m| !methods.contains(m)) {
+        methods.push(*m);
+    }
+    let mut n = 0u64;
+    for k in 0..=seq.len() {
+        for m in &methods {
+            for code in 0..m.domain_size() {
+                if n as usize >= cap {
+                    return n;
+                }
+                let mut history: Vec<Op> = seq[..k]
+                    .iter()
+                    .map(|(m, a)| Op::Call {
+                        inst: 0,
+                        method: *m,
+                        args: a.clone(),
+                        on_thread: false,
+                        inject: None,
+                    })
+                    .collect();
+                history.push(Op::Call {
+                    inst: 0,
+                    method: *m,
+                    args: m.args_from_code(code),
+                    on_thread: false,
+                    inject: None,
+                });
+                // and the rest of the expected sequence afterwards: it must fail or continue as Spec-M says
+                for (m2, a2) in seq.iter().skip(k).take(2) {
+                    history.push(Op::Call {
+                        inst: 0,
+                        method: *m2,
+                        args: a2.clone(),
+                        on_thread: false,
+                        inject: None,
+                    });
+                }
+                n += 1;
+                f(Case {
+                    partial,
+                    clauses: clauses.clone(),
+                    history,
+                });
+            }
+        }
+    }
+    n
+}
